@@ -3,7 +3,7 @@
 TIER=$1; shift
 for seed in "$@"; do
   for p in ${PROPS:-C01 C02 C03 C04 C05 C06 C07 C08 C09 C10 C11 C12 C13 C14 C15 C16}; do
-    VERIF_SEED=$seed /venv/bin/python /verif/check.py $p --tier $TIER --no-evidence > /tmp/sweep_$p_$seed.log 2>&1
+    VERIF_SEED=$seed /venv/bin/python "$(dirname "$0")/../check.py" $p --tier $TIER --no-evidence > /tmp/sweep_$p_$seed.log 2>&1
     rc=$?
     echo "seed=$seed $p rc=$rc $(grep -E "^C[0-9]+ \[" /tmp/sweep_$p_$seed.log | cut -c1-140)"
     if [ $rc -ne 0 ]; then grep -E "VIOLATION|monitor=|INCONCLUSIVE|KNOWN" /tmp/sweep_$p_$seed.log | head -5; fi
